@@ -24,7 +24,7 @@ try:
     print('applied:', applied)
     xml = f'/tmp/suite/{batch}.junit.xml'
     os.makedirs('/tmp/suite', exist_ok=True)
-    env = dict(os.environ, PYTHONPATH=os.path.join(wt, 'src'))
+    env = dict(os.environ, PYTHONPATH=os.path.join(wt, 'src'), OMP_NUM_THREADS='1', OPENBLAS_NUM_THREADS='1', MKL_NUM_THREADS='1')  # one BLAS thread per worker: 14 workers x 16 threads oversubscribes the machine
     jobs = os.environ.get('SUITE_JOBS', '14')
     r = sh(f'cd {wt} && /venv/bin/python -m pytest -q -p no:cacheprovider --timeout=1800 --continue-on-collection-errors -n {jobs} --junitxml={xml}', env=env)
     open(f'/tmp/suite/{batch}.log', 'w').write(r.stdout + r.stderr)
